@@ -46,11 +46,11 @@ RULE = ('one evaluation = one complete run of the real strategy under one '
 
 
 def bounds(tier):
-    return {'V': 8 if tier == 'quick' else 11,
-            'Vpar': 7 if tier == 'quick' else 10,
-            'S': 5 if tier == 'quick' else 8,
-            'Sreq': 4 if tier == 'quick' else 7,
-            'Vhash': 7 if tier == 'quick' else 9,
+    return {'V': 8 if tier == 'quick' else 10,
+            'Vpar': 7 if tier == 'quick' else 8,
+            'S': 5 if tier == 'quick' else 6,
+            'Sreq': 4 if tier == 'quick' else 5,
+            'Vhash': 7 if tier == 'quick' else 8,
             'J': [1, 2] if tier == 'quick' else [1, 2, 3]}
 
 
@@ -119,7 +119,9 @@ def partitions(tier):
     import itertools
     for (st, sc, ms) in CONFIGS:
         for j in b['J']:
-            npin = 0 if j == 1 else (2 if tier == 'quick' else 4)
+            npin = 0 if j == 1 else (2 if tier == 'quick' else 3)
+            if j == 3 and (st, sc, ms) not in CONFIGS[:2] + CONFIGS[4:6]:
+                continue      # three workers: four configurations only
             for pin in itertools.product((0, 1), repeat=npin):
                 nm = f'{st}_{sc}_{ms}_j{j}' + (
                     '_p' + ''.join(map(str, pin)) if pin else '')
